@@ -3,8 +3,8 @@ from gcv import typestate
 from gcv.props import common
 
 
-def run(chk, tier):
-    prog, T = typestate.engine("default")
+def run_config(chk, tier, cfgname):
+    prog, T = typestate.engine(cfgname)
     chk.explain("C11: every may-unwind call site of the collector is enumerated by the interpreter (opaque user "
                 "code forks into return/unwind): unwind rows of mark_one end with the popped object Gray, re-queued "
                 "and its trace credit taken back, and the root still flagged; unwind rows of sweep_one leave the "
@@ -29,3 +29,17 @@ def run(chk, tier):
     rules_ctor.run(chk, prog, T)
     from gcv import rules_builder
     rules_builder.slice_builder_unwind(chk, prog)
+
+
+def run(chk, tier):
+    cfgs = typestate.configs(tier)
+    chk.extra["feature_configs"] = cfgs
+    for c in cfgs:
+        chk.cfg = c
+        n_expl = len(chk.explanation)
+        nd = len(chk.not_decided)
+        run_config(chk, tier, c)
+        if c != cfgs[0]:
+            del chk.explanation[n_expl:]
+            del chk.not_decided[nd:]
+    chk.cfg = None
